@@ -198,6 +198,30 @@ def raiser(env, kind, message):
                 1 / 0
             except ZeroDivisionError:
                 raise ValueError(message)
+    elif kind.startswith("solution-"):
+        # an exception type that brings its own solution (crashtest's ProvidesSolution; the default configuration renders
+        # it below the report) whose texts are not markup but look like it
+        from crashtest.contracts.base_solution import BaseSolution
+        from crashtest.contracts.provides_solution import ProvidesSolution
+
+        title, desc, links = {
+            "solution-plain": ("Install it.", "Run the installer", ["https://example.org/a"]),
+            "solution-markup-title": ("remove the </error> tag", "plain description", []),
+            "solution-markup-description": ("Title", "a stray </info> and an <info>unclosed tag\nsecond line", []),
+            "solution-markup-link": ("Title", "see", ["https://example.org/</comment>", "https://example.org/<b>"]),
+            "solution-backslash": ("look in C:\\", "the directory C:\\temp\\", ["file:///C:\\"]),
+            "solution-message": (message, message, [message.replace("\n", " ")]),
+        }[kind]
+
+        class Solved(Exception, ProvidesSolution):
+            @property
+            def solution(self):
+                s = BaseSolution(title, desc)
+                s.documentation_links.extend(links)
+                return s
+
+        def f():
+            raise Solved(message)
     elif kind == "sourceless":
         ns = {}
         exec(compile("def g(m):\n    raise ValueError(m)\n", "<no-such-file>", "exec"), ns)
@@ -271,6 +295,7 @@ def raiser(env, kind, message):
 
 EXC_KINDS = ["ValueError", "TypeError", "chain-cycle", "chain-long", "KeyError", "custom-0", "custom-7", "custom-999", "custom-none", "custom-x", "custom-float", "custom-nan", "custom-true", "custom-neg",
              "custom-huge", "custom-decimal", "custom-fraction", "custom-method", "custom-absent", "library", "clikit-base", "interrupt",
+             "solution-plain", "solution-markup-title", "solution-markup-description", "solution-markup-link", "solution-backslash", "solution-message",
              "chain-from", "chain-implicit", "chain-same-message", "chain-context-message", "sourceless", "sourceless-markup-name", "sourceless-middle", "deleted-file", "latin1-file", "non-python-file"]
 VERBOSITY = [[], ["-v"], ["-vv"], ["-vvv"]]
 LISTENERS = ["none", "passes", "handles-0", "handles-5", "handles-300", "handles-default", "raises", "handles-7-status-first", "handles-5-two-listeners"]
